@@ -36,7 +36,8 @@ var (
 // keyPool generates the process's key pool once (outside any bubble).
 func keyPool() ([]*poolKey, error) {
 	poolOnce.Do(func() {
-		for i := 0; i < poolSize; i++ {
+		// one more than the cases draw from: the last is the prehistory's
+		for i := 0; i <= poolSize; i++ {
 			k, err := ecdsa.GenerateKey(elliptic.P256(), rand.Reader)
 			if err != nil {
 				poolErr = err
